@@ -18,7 +18,7 @@ from typing import (
     Any,
     cast,
 )
-from urllib.parse import urlparse
+from urllib.parse import unquote, urlparse
 
 import jinja2
 import jinja2.sandbox
@@ -1092,7 +1092,9 @@ class DocutilsRenderer(RendererProtocol):
         ref_node = nodes.reference()
         self.add_line_and_source_path(ref_node, token)
         ref_node["id_link"] = True
-        ref_node["refuri"] = self.md.normalizeLinkText(target)
+        # markdown-it percent-encodes the destination, target names are not encoded
+        # (``normalizeLinkText`` is meant for display and keeps e.g. ``%25`` encoded)
+        ref_node["refuri"] = unquote(target)
         self.copy_attributes(
             token, ref_node, ("class", "id", "reftitle"), aliases={"title": "reftitle"}
         )
